@@ -53,8 +53,14 @@ def strip_factor(e):
     return k, rest
 
 
+# rules that keep their verdict however the code is laid out (decided by term equality, effect analysis or dominance over
+# resolved calls); every other rule of this check is a template rule (vcheck.core.Check.obt)
+SEMANTIC = ('R08.2', 'R08.4', 'R08.5', 'R08.6', 'R08.7')
+
+
 def run(chk):
     repo = PyRepo()
+    chk.set_templates(repo, semantic=SEMANTIC)
     chk.explanation = MANIFEST["text"]
     chk.trusted = ["sympy normaliser", "numpy element-wise semantics", "CPython ast"]
     chk.floor = 30
